@@ -239,7 +239,7 @@ def report(prop, res):
                 "(dict / JSON / YAML), tables of executor sub-graphs, mc=1 execution order before and after reconfiguration. "
                 "Non-trivial: the shape contains a node reachable from another one by more than one path (diamond)")
         ev, st, tr, samples = cp["rows"], cp["states"], cp["transitions"], cp["samples"]
-        exhaustive = True
+        exhaustive = False      # all shapes up to the size bound, but chosen priority vectors and hash seeds
         extra = {"cases": cp["cases"], "hash_seeds": cp["hash_seeds"], "counts": cp["counts"]}
     else:
         nontriv = {"C12": sel["counts"].get("rxt", 0), "C13": sel["counts"].get("debugran", 0),
